@@ -29,8 +29,15 @@ def run(spec):
     fn = getattr(mod, 'replay_' + spec['kind'])
     try:
         res = fn(**unjson(spec.get('args', {})))
-    except Exception as e:      # a replay function that crashes is a machinery problem, not a violation
+    except Exception as e:
         import traceback
+        frames = traceback.extract_tb(e.__traceback__)
+        in_lib = [f for f in frames if os.path.realpath(f.filename).startswith(os.path.realpath(os.path.join(REPO, 'cardutil')) + os.sep)]
+        if in_lib:
+            # the code under test raised where the replay function expected a result: an exception the property does not allow
+            return {'violated': True, 'observed': '%s raised in %s:%d: %s' % (type(e).__name__, os.path.basename(in_lib[-1].filename), in_lib[-1].lineno, str(e)[:120]),
+                    'key': '%s/exception/%s' % (spec['property'], type(e).__name__)}
+        # a replay function that crashes by itself is a machinery problem, not a violation
         return {'violated': None, 'observed': 'replay crashed: %s' % traceback.format_exc()[-600:], 'key': None}
     if isinstance(res, tuple):
         res = {'violated': bool(res[0]), 'observed': res[1], 'key': res[2] if len(res) > 2 else None}
